@@ -316,6 +316,8 @@ class Tr:
             return V("ilistexpr", f"(if {c} then {self.seq_term(a)} else {self.seq_term(b)})")
         if a.kind == b.kind == "bool":
             return V("bool", f"(if {c} then {a.lean} else {b.lean})")
+        if a.kind == b.kind == "bytes":
+            return V("bytes", f"(if {c} then {a.lean} else {b.lean})")
         if a.kind == "fix" or b.kind == "fix":
             return V("fix", f"(if {c} then {to_fix_term(a)} else {to_fix_term(b)})")
         if a.kind in ("int", "bool") and b.kind in ("int", "bool"):
@@ -678,7 +680,7 @@ class Tr:
             rest = stmts[i + 1:]
             if isinstance(s, ast.Expr) and isinstance(s.value, ast.Constant):
                 continue   # docstring / stray constant
-            if isinstance(s, ast.Pass):
+            if isinstance(s, ast.Pass) or is_log_call(s):
                 continue
             if isinstance(s, ast.Assign):
                 v = self.expr(s.value, st, sc)
@@ -804,6 +806,8 @@ class Tr:
             elif isinstance(s, ast.AugAssign):
                 cur = self.target_value(s.target, st)
                 self.assign_target(s.target, self.binop(s.op, cur, self.expr(s.value, st, sc)), st)
+            elif is_log_call(s):
+                pass
             else:
                 raise Unsupported("statement in try body: " + type(s).__name__)
         return st
@@ -828,7 +832,7 @@ class Tr:
                 for k in set(sta) & set(stb):
                     a, b = sta[k], stb[k]
                     st[k] = a if a is b else self.ite(c, a, b)
-            elif isinstance(s, (ast.Pass,)) or (isinstance(s, ast.Expr) and isinstance(s.value, ast.Constant)):
+            elif isinstance(s, (ast.Pass,)) or (isinstance(s, ast.Expr) and isinstance(s.value, ast.Constant)) or is_log_call(s):
                 pass
             else:
                 raise Unsupported("statement in branch: " + type(s).__name__)
@@ -922,6 +926,14 @@ class Tr:
 
 
 # ------------------------------------------------------------------------------------------------
+
+def is_log_call(stmt):
+    """`_LOGGER.debug(...)` / `logging.info(...)` as a statement: no effect on the result (the arguments of the log calls
+    in the translated functions are attribute reads, `.hex()` and arithmetic on values already computed)"""
+    return (isinstance(stmt, ast.Expr) and isinstance(stmt.value, ast.Call) and isinstance(stmt.value.func, ast.Attribute)
+            and isinstance(stmt.value.func.value, ast.Name) and stmt.value.func.value.id in ("_LOGGER", "logging", "logger", "LOGGER")
+            and stmt.value.func.attr in ("debug", "info", "warning", "error", "exception", "critical", "log"))
+
 
 def canon_test(test):
     """conditions in a canonical polarity, so that `if a == b: X else: Y`, `if a != b: Y else: X` and `if not (a != b): ...`
